@@ -35,10 +35,15 @@ TYPES = ['bytes', 'bytearray', 'memoryview', 'np.uint8']
 def gen(rng, tier):
     itemsize = rng.choice([1, 2, 4, 8, 12])
     nitems = rng.choice([0, 1, 2, 3, 5, 17, 100, rng.randrange(0, 400), rng.randrange(0, 6000)] + ([rng.randrange(6000, 6001 + 65536 // itemsize)] if tier == 'thorough' else []))
+    big = rng.random() < 0.01
+    if big:
+        nitems = rng.randrange(5 << 20, 9 << 20) // itemsize      # more than one default (4 MiB) compression block
     nbytes = nitems * itemsize
     nframes_target = rng.choice([1, 1, 2, 3, 4, 9])
     per = max(1, -(-max(nitems, 1) // nframes_target))
     cbs = per * itemsize + rng.choice([0, 0, itemsize - 1])
+    if big:
+        cbs = 1 << 22
     cuts = []
     style = rng.choice(['prefix', 'boundary', 'random', 'ones', 'single', 'mixed', 'mixed'])
     nf = max(1, -(-nitems // max(1, cbs // itemsize))) if nitems else 0
